@@ -36,6 +36,7 @@ type VC struct {
 }
 
 type Obl struct {
+	PrePrefix int // relative covers: number of assertions before the step whose effect on the path is checked (0: absolute cover)
 	Name    string
 	Kind    string
 	Props   []string
@@ -179,6 +180,15 @@ func (vc *VC) cover(name string, props []string, pos, guard, desc string) {
 		return
 	}
 	vc.obls = append(vc.obls, &Obl{Name: name, Kind: "cover", Props: props, Fn: vc.fnName, Pos: pos, Prefix: len(vc.asserts), NDecl: len(vc.decls), Goal: guard, Desc: desc, vc: vc, Cover: true})
+}
+
+// coverStep records a relative reachability query: if the path was feasible with the first prePrefix assertions, it must
+// still be feasible now (a contract applied at a call site must not make the rest of the path vacuous).
+func (vc *VC) coverStep(name string, props []string, pos, guard, desc string, prePrefix int) {
+	if vc.quiet > 0 {
+		return
+	}
+	vc.obls = append(vc.obls, &Obl{Name: name, Kind: "cover", Props: props, Fn: vc.fnName, Pos: pos, Prefix: len(vc.asserts), NDecl: len(vc.decls), Goal: guard, Desc: desc, vc: vc, Cover: true, PrePrefix: prePrefix})
 }
 
 // script renders the SMT-LIB script of an obligation.
